@@ -92,7 +92,11 @@ def check_lift(spec, ctx):
     cl = labels(ctx, spec, blocks, strand, variants)
     parent, cs, refseq = parent_of(spec)
     # alternative sequence: literal substitution (single variant and collection), whole chromosome and chunk
-    vc = mkvc({"variants": variants}, parent)
+    pre = spec.get("preused") if not spec.get("chunk") else None
+    if pre:
+        ctx.label("children_used_before:" + pre)
+    other = chrom_parent(rm.revcomp(g)) if pre == "other_reference" else None
+    vc = mkvc({"variants": variants}, parent, preused=pre, other_parent=other)
     ctx.eq("collection_alternative_sequence", str(vc.alternative_genomic_sequence), apply_edits(refseq, variants, offset=cs))
     for v in variants:
         vi = mkvar(v, parent)
@@ -174,7 +178,10 @@ def check_incorporate(spec, ctx):
     variants = spec["variants"]
     parent, cs, refseq = parent_of(spec)
     vparent = parent_of(spec)[0]
-    vc = mkvc({"variants": variants}, vparent)
+    pre = spec.get("preused") if not spec.get("chunk") else None
+    if pre:
+        ctx.label("children_used_before:" + pre)
+    vc = mkvc({"variants": variants}, vparent, preused=pre, other_parent=chrom_parent(rm.revcomp(g)) if pre == "other_reference" else None)
     vobj = vc if spec["as_collection"] else mkvar(variants[0], vparent)
     vs = variants if spec["as_collection"] else variants[:1]
     if kind == "feat":
@@ -358,6 +365,8 @@ def strat_lift(draw, tier="quick"):
         vlo = min(v["start"] for v in variants)
         vhi = max(v["end"] for v in variants)
         sp["chunk"] = [draw(st.integers(0, min(lo, vlo))), draw(st.integers(max(hi, vhi), n))]
+    else:
+        sp["preused"] = draw(st.sampled_from([None, None, "other_reference", "sequence_less"]))
     return sp
 
 
@@ -387,6 +396,8 @@ def strat_incorporate(draw, tier="quick"):
         vlo = min(v["start"] for v in variants)
         vhi = max(v["end"] for v in variants)
         sp["chunk"] = [draw(st.integers(0, min(lo, vlo))), draw(st.integers(max(hi, vhi), n))]
+    else:
+        sp["preused"] = draw(st.sampled_from([None, None, "other_reference", "sequence_less"]))
     return sp
 
 
